@@ -155,6 +155,12 @@ def run(ctx, model_ok=True):
                 k += 1
     finally:
         langgen.A_VARS[:] = old
+    # a long name in front of every kind of follower, in upper, lower and mixed case: the shortened name must not run into a reserved word
+    if pool:
+        for cid, v, fo, src in guard_cases(ctx, pool, 150 if quick else 4000):
+            variant = rng.choice([src.lower(), src.lower(), ''.join(c.lower() if rng.random() < 0.5 else c for c in src), src.replace(v, v.lower()), src])
+            lines.append(f"minichk p{k} {rng.choice([1, 1, 3])} {hexs(variant.encode())}")
+            k += 1
     # runs of comment-only lines with references into them (the programs of the reference-map stream), every level
     for i in range(60 if quick else 1500):
         nl = rng.choice([3, 5, 8, 12])
